@@ -6,6 +6,8 @@ CONSTANTS
   MaxTicks = 1
   MaxCrashes = 2
   MaxOps = 3
+  MaxOps2 = 3
+  FirstSess = "c1"
   RunEnabled = TRUE
   Ops = {"submit", "status", "cancel"}
   FindUnitHoldsRLock = FALSE
